@@ -7,7 +7,9 @@ from collections import namedtuple
 from .ir import strip_struct, cname_of, CASTS
 
 # off: int or None (variable); rng: (lo,hi) byte bounds when variable inside a bounded array, else None
-Seg = namedtuple("Seg", "ty off rng")
+Seg = namedtuple("Seg", "ty off rng el")
+# el: for a variable array index, (element size, constant byte offset inside the element) when known
+Seg.__new__.__defaults__ = (None,)
 Addr = namedtuple("Addr", "root segs")
 
 ALLOCATORS = {"calloc": ("calloc",), "malloc": ("malloc",), "realloc": ("realloc",),
@@ -116,25 +118,75 @@ class AddrMap:
             off = 0 if last.off is None else last.off
             cur = off
             arr_lo = arr_hi = None
+            el = None
+            inner = 0
             for s in gep["steps"]:
                 if s["k"] == "field":
                     cur += s["off"]
+                    if el is not None:
+                        inner += s["off"]
                 elif "const" in s:
                     cur += s["const"] * s["elsize"]
+                    if el is not None:
+                        inner += s["const"] * s["elsize"]
                 else:
                     if s["count"] > 0:
                         if arr_lo is None:
                             arr_lo, arr_hi = cur, cur + s["count"] * s["elsize"]
+                            el = s["elsize"]
+                            inner = 0
+                        else:
+                            el = None
                     else:
                         bounded = False
+            elinfo = (el, inner) if el is not None and len(gep["vars"]) == 1 else None
+            if len(gep["vars"]) == 1 and last.off is not None:
+                ivr = iv_range(self.f, gep["vars"][0][0])
+                scale = gep["vars"][0][1]
+                if ivr is not None:
+                    # dense walk over a constant index range: the bytes touched are known exactly
+                    base0 = (arr_lo if arr_lo is not None else off + (gep["coff"] if not bounded or arr_lo is None else 0))
+                    if arr_lo is None:
+                        base0 = off + gep["coff"]
+                        inner = 0
+                    rngb = (base0 + ivr[0] * scale, base0 + ivr[1] * scale)
+                    return Addr(base.root, base.segs[:-1] + (Seg(ty, None, rngb, (scale, inner, "iv")),))
             if bounded and arr_lo is not None and last.off is not None:
                 rng = (arr_lo, arr_hi)
             else:
                 # pointer arithmetic on a member's address stays inside that member (bounds: C09)
                 rng = last.rng
-            return Addr(base.root, base.segs[:-1] + (Seg(ty, None, rng),))
+                elinfo = None
+                if len(gep["vars"]) == 1 and last.off is not None:
+                    v = gep["vars"][0][0]
+                    extra = 0
+                    while v[0] == "i":
+                        vi = self.f.insts[v[1]]
+                        if vi["op"] in ("zext", "sext"):
+                            v = vi["ops"][0]
+                        elif vi["op"] == "add" and vi["ops"][1][0] == "c":
+                            k = int(vi["ops"][1][1])
+                            bits = vi.get("bits", 32)
+                            extra += k - (1 << bits) if k >= 1 << (bits - 1) else k
+                            v = vi["ops"][0]
+                        else:
+                            break
+                    if v[0] == "a":
+                        # base + scale*(parameter + extra) + constant: remember the constant part
+                        sc = gep["vars"][0][1]
+                        elinfo = ("argoff", v[1], sc, last.off + gep["coff"] + extra * sc)
+            return Addr(base.root, base.segs[:-1] + (Seg(ty, None, rng, elinfo),))
         if last.off is None:
-            return Addr(base.root, base.segs[:-1] + (Seg(ty, None, last.rng),))
+            # constant steps after a variable index move inside the element
+            if last.el and last.el[0] == "argoff":
+                el2 = ("argoff", last.el[1], last.el[2], last.el[3] + gep["coff"])
+            elif last.el and len(last.el) == 2:
+                el2 = (last.el[0], last.el[1] + gep["coff"])
+            elif last.el and len(last.el) == 3:
+                el2 = (last.el[0], last.el[1] + gep["coff"], last.el[2])
+            else:
+                el2 = None
+            return Addr(base.root, base.segs[:-1] + (Seg(ty, None, last.rng, el2),))
         # constant offset: remember the innermost named member the pointer was taken from (its byte
         # extent inside the object) so that a callee writing through it at a variable offset can be
         # bounded to that member (the callee's own accesses are bounded by C09)
@@ -246,6 +298,60 @@ class AddrMap:
         return None
 
 
+def iv_range(f, op, depth=0):
+    """[lo, hi) of an index operand that is a loop induction variable with constant bounds and unit step
+    (count-up `i = a; i < b; ++i`, or count-down `i = b; i > a; ` with the decrement before the use)."""
+    off = 0
+    while op[0] == "i" and depth < 12:
+        depth += 1
+        i = f.insts[op[1]]
+        if i["op"] in ("zext", "sext", "trunc"):
+            op = i["ops"][0]
+        elif i["op"] == "add" and i["ops"][1][0] == "c":
+            k = int(i["ops"][1][1])
+            bits = i.get("bits", 32)
+            off += k - (1 << bits) if k >= 1 << (bits - 1) else k
+            op = i["ops"][0]
+        else:
+            break
+    if op[0] != "i" or f.insts[op[1]]["op"] != "phi":
+        return None
+    phi = f.insts[op[1]]
+    header = f.bb_of[phi["id"]]
+    loops = f.loops()
+    if header not in loops:
+        return None
+    body = loops[header]
+    start = step = None
+    for v, pb in zip(phi["ops"], phi["inblocks"]):
+        if pb in body:
+            b = f.insts.get(v[1]) if v[0] == "i" else None
+            if b and b["op"] == "add" and b["ops"][0] == ["i", phi["id"]] and b["ops"][1][0] == "c":
+                k = int(b["ops"][1][1])
+                bits = b.get("bits", 32)
+                step = k - (1 << bits) if k >= 1 << (bits - 1) else k
+        elif v[0] == "c":
+            start = int(v[1])
+    t = f.term(header)
+    if start is None or step not in (1, -1) or t["op"] != "br" or t["ops"][0][0] != "i":
+        return None
+    c = f.insts[t["ops"][0][1]]
+    if c["op"] != "icmp" or c["ops"][0] != ["i", phi["id"]] or c["ops"][1][0] != "c":
+        return None
+    bound = int(c["ops"][1][1])
+    # no other exit from the loop
+    if any(s not in body for b in body if b != header for s in f.succs[b]):
+        return None
+    if step == 1 and c["pred"] in ("ult", "ne", "slt"):
+        lo, hi = start, bound
+    elif step == -1 and c["pred"] in ("ugt", "ne", "sgt"):
+        lo, hi = bound + 1, start + 1
+    else:
+        return None
+    lo, hi = lo + off, hi + off
+    return (lo, hi) if lo < hi else None
+
+
 # ---- locations (address + size) and overlap ---------------------------------
 
 Loc = namedtuple("Loc", "addr size")   # size: int or None (unknown / variable)
@@ -319,11 +425,13 @@ def rebase(addr, actual):
         return None
     first = addr.segs[0]
     last = actual.segs[-1]
+    el = None
     if first.off is None or last.off is None:
         off = None
         rng = None
         if first.off is None and first.rng and last.off is not None:
             rng = (first.rng[0] + last.off, first.rng[1] + last.off)
+            el = first.el
         elif first.off is None and last.off is not None and last.rng:
             rng = last.rng        # bounded by the member whose address was passed
     else:
@@ -332,5 +440,5 @@ def rebase(addr, actual):
     ty = last.ty or first.ty
     if last.ty and first.ty and last.ty != first.ty and last.off:
         ty = last.ty
-    merged = Seg(ty, off, rng)
+    merged = Seg(ty, off, rng, el if off is None else None)
     return Addr(actual.root, actual.segs[:-1] + (merged,) + addr.segs[1:])
